@@ -147,6 +147,7 @@ func cacheMain(s *simrt.Sim, info *harness.RunInfo) {
 			return strings.Clone(c.Path()) + "|v=" + strings.Clone(c.Query("v"))
 		}
 	}
+	outerMW := s.Chance(400)
 	storeFaults := useSim && s.Chance(200)
 	info.Faults = storeFaults || panicFaults
 	var sim *harness.SimStorage
@@ -194,6 +195,18 @@ func cacheMain(s *simrt.Sim, info *harness.RunInfo) {
 	app := fiber.New()
 	if panicFaults {
 		app.Use(recoverer.New())
+	}
+	if outerMW {
+		// something in front of the cache that still has work to do when the chain comes back (access log,
+		// metrics): the response stays in flight for a while after the cache has produced it
+		app.Use(func(c fiber.Ctx) error {
+			err := c.Next()
+			simrt.Yield(305)
+			if s.Chance(300) {
+				simrt.Sleep(time.Millisecond)
+			}
+			return err
+		})
 	}
 	app.Use(cache.New(cfg))
 	origin := func(c fiber.Ctx) error {
